@@ -334,6 +334,11 @@ def run(ctx):
     r9divzero.check(ctx, dprog, "R9.divzero", ("ncmpidiff.c", "cdfdiff.c"), min_instances=12)
     ctx.rule("R10.reccount", "a diff tool that reads numrecs from the headers compares the two files' record counts")
     r10reccount.check(ctx, dprog, "R10.reccount", ("ncmpidiff.c", "cdfdiff.c"))
+    r10reccount.check_dimlen(ctx, dprog, "R10.reccount", ("cdfdiff.c",))
+    from rules import r10bitequal
+    ctx.rule("R10.bitequal", "ncmpidiff: floating-point values count as different only when `!=` holds and their bit patterns differ "
+             "(a NaN is not different from the same NaN)")
+    r10bitequal.check(ctx, dprog, "R10.bitequal", "ncmpidiff.c", 8)
     ctx.rule("R10.recstride", "record r of a variable is addressed at begin + r * (the file's record size)")
     r10recstride.check(ctx, ctx.program(groups=["lib", "util"]), "R10.recstride", min_instances=6)
     from rules import r4decodeorder
